@@ -8,6 +8,9 @@ import Pastel.Wire
 import Pastel.Model.Distinct
 import Pastel.Model.SetCmd
 import Pastel.Model.Scale
+import Pastel.Model.Ansi
+import Pastel.Model.Format
+import Pastel.Model.Parser
 
 namespace Pastel
 open Wire
@@ -269,8 +272,126 @@ def opScale (st : OpState) (args : List String) : OpState × String :=
     | _, _ => (st, bad)
   | _ => (st, bad)
 
+/-- The Lab table of the 240 candidates at `Float`, computed once at start-up. -/
+def ansiLabTableFloat : List (Nat × Lab3 Float) := ansiLabTable
+
+def quantF (c : Color Float) : Nat := toAnsiWith ansiLabTableFloat c
+
+def optColor : List String → Option (Option (Color Float) × List String)
+  | "-" :: rest => some (none, rest)
+  | "c" :: rest => (parseC rest).map fun (c, r) => (some c, r)
+  | _ => none
+
+def opAnsi (args : List String) : String :=
+  match args with
+  | ["from", b] =>
+    match b.toNat? with
+    | some b => let c := fromAnsi b; s!"ok {c.1} {c.2.1} {c.2.2}"
+    | none => bad
+  | "to" :: rest =>
+    match parseC rest with
+    | some (c, []) => s!"ok {quantF c}"
+    | _ => bad
+  | "seq" :: m :: rest =>
+    match parseC rest with
+    | some (c, []) =>
+      let mode := if m = "8" then AnsiMode.ansi8 else .trueColor
+      "ok " ++ showStr (toAnsiSequence quantF c mode)
+    | _ => bad
+  | _ => bad
+
+/-- `style <fg> <bg> <biu bits> <8|24|off> <text>` -/
+def opStyle (args : List String) : String :=
+  match optColor args with
+  | some (fg, rest) =>
+    match optColor rest with
+    | some (bg, [bits, m, text]) =>
+      match bits.toNat?, parseStr text with
+      | some bits, some text =>
+        let st : Style Float := { foreground := fg, background := bg, bold := bits % 2 = 1,
+                                  italic := bits / 2 % 2 = 1, underline := bits / 4 % 2 = 1 }
+        let mode : Option AnsiMode := if m = "8" then some .ansi8 else if m = "24" then some .trueColor else none
+        "ok " ++ showStr (paint quantF mode text st)
+      | _, _ => bad
+    | _ => bad
+  | none => bad
+
+def optStr (s : String) : Option (Option String) :=
+  if s = "~" then some none else (parseStr s).map some
+
+/-- `mode <force 0/1> <flag> <tty 0/1> <PASTEL_COLOR_MODE|~> <NO_COLOR set 0/1> <COLORTERM|~>` -/
+def opMode (args : List String) : String :=
+  match args with
+  | [force, flag, tty, pcm, nocolor, ct] =>
+    let flag? : Option ModeFlag := match flag with
+      | "auto" => some .auto | "24bit" => some .m24bit | "8bit" => some .m8bit | "off" => some .off | _ => none
+    match flag?, optStr pcm, optStr ct with
+    | some flag, some pcm, some ct =>
+      match decideMode (force = "1") flag (tty = "1") pcm (nocolor = "1") ct with
+      | .ok (some .trueColor) => "ok 24"
+      | .ok (some .ansi8) => "ok 8"
+      | .ok none => "ok off"
+      | .error v => "err:mode " ++ showStr v
+    | _, _, _ => bad
+  | _ => bad
+
+/-- `fmt <notation> <sp|nosp> C` and the raw number formatters `fmt fixed N F`, `fmt shortest F`,
+`fmt maxprec N F`. -/
+def opFmt (args : List String) : String :=
+  match args with
+  | ["fixed", n, x] =>
+    match n.toNat?, parseF x with
+    | some n, some x => "ok " ++ showStr (Fmt.fixed x n)
+    | _, _ => bad
+  | ["shortest", x] =>
+    match parseF x with
+    | some x => "ok " ++ showStr (Fmt.shortest x)
+    | none => bad
+  | ["maxprec", n, x] =>
+    match n.toNat?, parseF x with
+    | some n, some x => "ok " ++ showStr (Fmt.maxPrecision n x)
+    | _, _ => bad
+  | kind :: spc :: rest =>
+    match parseC rest with
+    | some (c, []) =>
+      let spaces := spc = "sp"
+      let out : Option String := match kind with
+        | "hex" => some (Fmt.hexString c true)
+        | "hexnohash" => some (Fmt.hexString c false)
+        | "rgb" => some (Fmt.rgbString c spaces)
+        | "rgbf" => some (Fmt.rgbFloatString c spaces)
+        | "hsl" => some (Fmt.hslString c spaces)
+        | "hsv" => some (Fmt.hsvString c spaces)
+        | "lab" => some (Fmt.labString c spaces)
+        | "lch" => some (Fmt.lchString c spaces)
+        | "oklab" => some (Fmt.oklabString c spaces)
+        | "cmyk" => some (Fmt.cmykString c spaces)
+        | _ => none
+      match out with
+      | some s => "ok " ++ showStr s
+      | none => bad
+    | _ => bad
+  | _ => bad
+
+/-- `parse <hex utf8>` -/
+def opParse (args : List String) : String :=
+  match args with
+  | [t] =>
+    match parseStr t with
+    | some str =>
+      match P.parseColor str.toList with
+      | some c => "ok " ++ showC c
+      | none => "none"
+    | none => bad
+  | _ => bad
+
 def runOp (st : OpState) (toks : List String) : OpState × String :=
   match toks with
+  | "parse" :: args => (st, opParse args)
+  | "fmt" :: args => (st, opFmt args)
+  | "ansi" :: args => (st, opAnsi args)
+  | "style" :: args => (st, opStyle args)
+  | "mode" :: args => (st, opMode args)
   | "scale" :: args => opScale st args
   | "dr" :: args => opDr st args
   | "sa" :: args => (st, opSa args)
